@@ -1,4 +1,5 @@
 import ArgoVerif.Proofs.Barrier2
+import ArgoVerif.Gen.Consts
 /-
 Props.C08 — barriers release nobody early and everybody once the last waiter arrives.
 All theorems quantify over every trace accepted by the barrier model, i.e. over every interleaving of
@@ -326,5 +327,12 @@ example :
 open ArgoVerif.Model in
 /-- an early return is not a behaviour of the model -/
 example : (XBarrier.machine 3).run (XBarrier.init 3) [.call 1, .call 2, .ret 1] = none := by decide
+
+
+/-! ## widths of the counters modelled as unbounded numbers (generated from the headers on every run) -/
+/-- `counter` of ABT_barrier is 8 bytes wide in this tree: the unbounded model agrees with the C field below 2^63 -/
+example : ArgoVerif.Gen.Consts.bytesBarrierCounter = 8 := by decide
+/-- `num_waiters` is 8 bytes wide in this tree: the unbounded model agrees with the C field below 2^63 -/
+example : ArgoVerif.Gen.Consts.bytesBarrierNumWaiters = 8 := by decide
 
 end ArgoVerif.Props.C08
